@@ -348,6 +348,39 @@ def special_keys(cls):
     return keys
 
 
+_ALL_NAMES = None
+
+
+def prefix_keys(cls):
+    """prefixes that read_parameters scans the input keys for (`key.startswith("...")` in the AST of the current source), each paired with a
+    real parameter name of some simulator class that starts with it: the scan must not depend on where such a line stands."""
+    global _ALL_NAMES
+    if _ALL_NAMES is None:
+        _ALL_NAMES = set()
+        for modn, clsn in gx.SOURCE_CLASSES:
+            try:
+                o, _, _ = gx.make_source(modn, clsn)
+                _ALL_NAMES |= {p.Name.strip() for p in o.ParameterDict.values()}
+            except Exception:
+                pass
+    out = {}
+    for klass in cls.__mro__:
+        fn = klass.__dict__.get('read_parameters')
+        if fn is None:
+            continue
+        try:
+            tree = ast.parse(textwrap.dedent(inspect.getsource(fn)))
+        except (OSError, TypeError, SyntaxError):
+            continue
+        for node in ast.walk(tree):
+            if isinstance(node, ast.Call) and isinstance(node.func, ast.Attribute) and node.func.attr == 'startswith' and node.args \
+                    and isinstance(node.args[0], ast.Constant) and isinstance(node.args[0].value, str) and len(node.args[0].value) >= 3:
+                pre = node.args[0].value
+                full = sorted(n for n in _ALL_NAMES if n.startswith(pre))
+                out[pre] = full[0] if full else pre + ' 1'
+    return out
+
+
 def values_for(prm):
     if isinstance(prm, P.floatParameter):
         lo, hi = float(prm.Min), float(prm.Max)
@@ -416,8 +449,19 @@ def run_order(unit):
     if unit['tier'] == 'quick' and len(groups) > 80:
         step = len(groups) // 80 + 1
         groups = groups[(unit.get('seed', 0)) % step::step]
+    # lines that read_parameters only scans for by prefix (add-on / S-DAC-GT auto-detection ...): any order of two such lines, and of one
+    # such line with a specially handled parameter
+    pk = prefix_keys(type(obj0))
+    synth = sorted(set(pk.values()))
+    groups += [g for g in itertools.combinations(synth, 2)] + [(a, b) for a in synth for b in sk[:3]]
+    if len(synth) >= 3:
+        groups += [tuple(synth[:3])]
+    cfg['prefix_scanned_keys'] = synth
+
+    def vals_of(k, n):
+        return values_for(names[k])[:n] if k in names and values_for(names[k]) else ['1']
     for g in groups:
-        combos = list(itertools.product(*[values_for(names[k])[:3 if len(g) == 2 else 2] for k in g]))
+        combos = list(itertools.product(*[vals_of(k, 3 if len(g) == 2 else 2) for k in g]))
         for combo in combos:
             entries = list(zip(g, combo))
             canon, cexc = read_with(modn, clsn, entries, False)
